@@ -90,6 +90,14 @@ func badTx(kind string) *blockchain.Transaction {
 		tx.Signatures = []codec.Hex{tx.Signatures[0][:63]}
 	case "nosig":
 		tx.Signatures = []codec.Hex{}
+	case "emptysig":
+		tx.Signatures = []codec.Hex{{}} // one entry of length zero
+	case "emptysig-second":
+		tx.Signatures = []codec.Hex{tx.Signatures[0], {}}
+	case "siglen65":
+		tx.Signatures = []codec.Hex{append(append([]byte{}, tx.Signatures[0]...), 0)}
+	case "pubkey33":
+		tx.SenderPublicKey = append(append([]byte{}, tx.SenderPublicKey...), 0)
 	case "params":
 		tx.Params = bytes.Repeat([]byte{0}, blockchain.MaxTransactionParamsSize+1)
 	}
@@ -187,7 +195,7 @@ func ops() []op {
 			b.Header.Timestamp = c.n.Slot.GetSlotTime(slot) + 1
 			b.Header.GeneratorAddress = k.Addr
 			b.Header.MaxHeightGenerated = c.n.LastGeneratedHeight(k.Addr)
-			return resigned(b, k), true
+			return resigned(b, c.n.SignerFor(c.valid.Header.Height, k)), true
 		})
 	}
 	slotMut("slot-same-as-tip", func(c *mctx) (int, bool) {
@@ -225,10 +233,14 @@ func ops() []op {
 				b := c.clone()
 				b.Header.GeneratorAddress = k.Addr
 				b.Header.MaxHeightGenerated = c.n.LastGeneratedHeight(k.Addr)
-				return resigned(b, k), true
+				return resigned(b, c.n.SignerFor(c.valid.Header.Height, k)), true
 			}
 		}
 		return nil, false
+	})
+	add("signed-with-the-owner's-other-generator-key", true, func(c *mctx) (*blockchain.Block, bool) {
+		// the key pair of the slot owner that is NOT in force at this height: revoked by a rotation, or never registered
+		return resigned(c.clone(), c.n.OtherSignerFor(c.valid.Header.Height, node.KeyByAddr(c.valid.Header.GeneratorAddress))), true
 	})
 	add("generator-swapped-signed-by-owner", true, func(c *mctx) (*blockchain.Block, bool) {
 		k := node.Keys()[15]
@@ -445,7 +457,7 @@ func ops() []op {
 			return resigned(b, c.owner), true
 		})
 	}
-	for _, kind := range []string{"module", "command", "pubkey", "siglen", "nosig", "params"} {
+	for _, kind := range []string{"module", "command", "pubkey", "siglen", "nosig", "params", "emptysig", "emptysig-second", "siglen65", "pubkey33"} {
 		kind := kind
 		add("tx-statically-invalid:"+kind, true, func(c *mctx) (*blockchain.Block, bool) {
 			b := c.clone()
@@ -644,7 +656,7 @@ func runCase(t *rapid.T) {
 		t.Fatalf("new node: %v", err)
 	}
 	defer n.Close()
-	opts := node.GenOpts{MaxTxs: 3, AllowChange: true, AllowAgg: true, AllowStandby: true}
+	opts := node.GenOpts{MaxTxs: 3, AllowChange: true, AllowAgg: true, AllowStandby: true, AllowRotate: true}
 	flags := map[string]bool{}
 	var hist []string
 	hlen := rapid.IntRange(0, 25).Draw(t, "history")
@@ -664,7 +676,7 @@ func runCase(t *rapid.T) {
 	if err != nil {
 		t.Fatalf("build: %v", err)
 	}
-	c := &mctx{t: t, n: n, valid: valid, spec: sp, owner: node.KeyByAddr(valid.Header.GeneratorAddress), slot: n.SlotOf(valid.Header.Timestamp)}
+	c := &mctx{t: t, n: n, valid: valid, spec: sp, owner: n.SignerFor(valid.Header.Height, node.KeyByAddr(valid.Header.GeneratorAddress)), slot: n.SlotOf(valid.Header.Timestamp)}
 	before := capture(n)
 	if before.c > 0 {
 		evid.R.Label("state-certified>0", 1)
@@ -781,7 +793,7 @@ func TestEveryOperatorApplicableSomewhere(t *testing.T) {
 		if err != nil {
 			t.Fatal(err)
 		}
-		c := &mctx{t: t, n: n, valid: valid, spec: sp, owner: node.KeyByAddr(valid.Header.GeneratorAddress), slot: n.SlotOf(valid.Header.Timestamp)}
+		c := &mctx{t: t, n: n, valid: valid, spec: sp, owner: n.SignerFor(valid.Header.Height, node.KeyByAddr(valid.Header.GeneratorAddress)), slot: n.SlotOf(valid.Header.Timestamp)}
 		for _, o := range allOps {
 			if _, ok := o.build(c); ok {
 				seen[o.name] = true
@@ -830,7 +842,7 @@ func regress(t *testing.T, opName string) {
 		if err != nil {
 			rt.Fatal(err)
 		}
-		c := &mctx{t: rt, n: n, valid: valid, spec: sp, owner: node.KeyByAddr(valid.Header.GeneratorAddress), slot: n.SlotOf(valid.Header.Timestamp)}
+		c := &mctx{t: rt, n: n, valid: valid, spec: sp, owner: n.SignerFor(valid.Header.Height, node.KeyByAddr(valid.Header.GeneratorAddress)), slot: n.SlotOf(valid.Header.Timestamp)}
 		var o *op
 		for i := range allOps {
 			if allOps[i].name == opName {
@@ -858,7 +870,7 @@ func regress(t *testing.T, opName string) {
 }
 
 func TestRegressTxStaticValidation(t *testing.T) {
-	for _, k := range []string{"module", "command", "pubkey", "siglen", "nosig", "params"} {
+	for _, k := range []string{"module", "command", "pubkey", "siglen", "nosig", "params", "emptysig", "emptysig-second", "siglen65", "pubkey33"} {
 		regress(t, "tx-statically-invalid:"+k)
 	}
 }
